@@ -632,12 +632,17 @@ class DirDecoder:
         self.packets = 0
         self.old_prots = []
         self.on_packet = None     # fn(item) called before a key switch
+        self.stalled = False
+        self.passive = True
 
     def feed(self, data):
         """Returns list of ('version', line) / ('packet', seq, payload, info)"""
 
         out = []
         self.buf += data
+
+        if self.stalled:
+            return out
 
         while self.version is None:
             idx = self.buf.find(b'\n')
@@ -680,14 +685,32 @@ class DirDecoder:
 
             if payload[0] == MSG_NEWKEYS:
                 if self.next_prot is None:
-                    raise RefError('NEWKEYS but no keys known to the decoder')
-                self.old_prots.append(self.prot)
-                self.prot = self.next_prot
-                self.comp = self.next_comp
-                self.next_prot = None
-                self.state = {}
-                if self.strict:
-                    self.seq = 0
+                    if self.passive:
+                        raise RefError('NEWKEYS but no keys known to the '
+                                       'decoder')
+                    # active peer: its coroutine installs the keys; parsing
+                    # of what follows continues in resume()
+                    self.stalled = True
+                    return out
+                self._switch()
+
+    def _switch(self):
+        self.old_prots.append(self.prot)
+        self.prot = self.next_prot
+        self.comp = self.next_comp
+        self.next_prot = None
+        self.state = {}
+        if self.strict:
+            self.seq = 0
+
+    def resume(self):
+        """Keys were installed after NEWKEYS had already been seen"""
+
+        if self.stalled and self.next_prot is not None:
+            self.stalled = False
+            self._switch()
+            return self.feed(b'')
+        return []
 
 
 class DirEncoder:
